@@ -10,3 +10,13 @@ Proof.
   intros o. unfold option_string. apply option_string_loop_total. vm_compute. apply le_n.
 Qed.
 Print Assumptions C19_option_string_total.
+
+(** Eval never panics: on every source text and every environment the model of Eval (tokenizer,
+    parser, evaluator; harness sub-command "arith" compares it with interp.Eval on every run) ends
+    with a number or with one of the documented errors — no panic site is reached and no fuel runs
+    out, whatever the nesting depth. *)
+From GoSh Require Import Arith.ASyntax Arith.AEval Arith.ATotal.
+Theorem C19_eval_total : forall e src,
+  match snd (eval_model e src) with Ok _ | Err _ => True | Panic _ | OutOfFuel => False end.
+Proof. exact eval_model_total. Qed.
+Print Assumptions C19_eval_total.
